@@ -576,7 +576,7 @@ type phaseResult map[int]map[string]outcome // query index -> variant name -> ou
 // TestPlanIndependence is the main property: see Config.Rule.
 func TestPlanIndependence(t *testing.T) {
 	setupTmp()
-	vk.Check(t, 400, 10000, func(rt *rapid.T, c *vk.Case) {
+	vk.Check(t, 400, 8000, func(rt *rapid.T, c *vk.Case) {
 		e := &env{rt: rt, c: c, created: map[string][]sqlgen.Index{}, pending: map[string][]sqlgen.Index{},
 			used: map[string]sqlgen.KeySet{}, empties: map[string]bool{}, dirty: map[string]bool{}, touched: map[string]bool{}, collide: map[string]bool{}}
 		so := sqlgen.SchemaOpts{}
